@@ -71,6 +71,7 @@ type run struct {
 	nAdopt, nRefuse int
 	failed          bool
 	cast            map[int][]castVote
+	sigSuffix       string // appended to the two-commits signature by schedule families that name their mechanism
 }
 
 func newRun(o sink, name string, cfg bftsim.Config) *run {
@@ -221,7 +222,11 @@ func (r *run) oracle() {
 			first = c.Blk
 		} else if c.Blk != first {
 			r.failed = true
-			r.o.Fail("C01:two-commits-one-height", fmt.Sprintf("case %s: honest replicas committed two different (blockHash, resultsHash) at height %d: %s", r.name, bftsim.Height, commitsStr(s)),
+			sig := "C01:two-commits-one-height"
+			if r.sigSuffix != "" {
+				sig += ":" + r.sigSuffix
+			}
+			r.o.Fail(sig, fmt.Sprintf("case %s: honest replicas committed two different (blockHash, resultsHash) at height %d: %s", r.name, bftsim.Height, commitsStr(s)),
 				map[string]any{"schedule": r.sched, "commits": commitsStr(s)})
 			return
 		}
